@@ -7,12 +7,38 @@ RULE_TEXT = ("C13-G: obligations over the crate graph and crate attributes of th
              "the loaded crates, every MIR call and every local type names only crates of that graph, build succeeds. "
              "C13-S: with feature std, bodies shared with the no_std build call nothing in alloc/std and "
              "hold no alloc-typed local; allocation is confined to bodies that exist only under the std feature. "
-             "Under std only impls for growable types (Vec<u8>, String) touch the heap - any other std-only body that does (a blocking entry point, a wrapper) is reported. "
+             "Under std only impls for growable containers (Vec, String, VecDeque) may call an allocating function (constructors of Box/Arc/Rc, growth of Vec/String, format, to_string/to_owned/to_string_lossy, collect, thread creation) - any other std-only body that does (a blocking entry point, a lossy path response) is reported. "
              "C13-W: a #![no_std] crate with the witness interfaces builds and loads neither alloc nor std. "
              "C13-Q: the identifiers the macro crate's quote! fragments emit (read from its HIR, token by token) name no "
              "alloc/std item (Vec, String, Box, format!, .to_string() ... or a path rooted in std/alloc).")
 
 ALLOC_CRATES = {"alloc", "std"}
+
+# callees that obtain heap memory (constructors of owning heap types, growth of growable containers, formatting into a
+# String, thread creation); `Vec::new()` / `String::new()` do not allocate
+import re
+ALLOCATING = re.compile(
+    r"^(alloc|std)::(boxed::Box|sync::Arc|rc::Rc)(<[^:]*>)?::(new|pin|from|new_uninit|clone)\b"
+    r"|^(alloc|std)::(vec::Vec|string::String|collections::[a-z_]+::[A-Za-z]+)(<[^:]*>)?::(with_capacity|from|push|push_str|push_back|push_front|insert|extend|extend_from_slice|reserve|reserve_exact|resize|append|clone|from_utf8_lossy|into_boxed_slice)\b"
+    r"|^alloc::fmt::format\b|^alloc::alloc::|^alloc::slice::<impl \[T\]>::(to_vec|concat|join|repeat)\b|^alloc::str::<impl str>::(to_owned|to_string|repeat|to_uppercase|to_lowercase|replace)\b"
+    r"|to_string_lossy\b|::into_owned\b|::to_path_buf\b|::to_os_string\b|::into_string\b"
+    r"|ToString>::to_string\b|ToOwned>::to_owned\b|^std::thread::(spawn|Builder|scope)\b|<(alloc|std)::(sync::Arc|boxed::Box|rc::Rc)<.*> as core::convert::From<|as core::convert::From<(alloc|std)::(sync::Arc|boxed::Box)"
+    r"|as core::iter::traits::collect::FromIterator|^core::iter::traits::iterator::Iterator::collect::<(alloc|std)::")
+
+
+def allocating_calls(crate, root):
+    out = []
+    for m in crate.facts["mir"]:
+        if m["def"].split("::{closure")[0] != root:
+            continue
+        for b in m["blocks"]:
+            t = b["term"]
+            if t["k"] == "Call" and t.get("callee"):
+                for c in (t.get("resolved") or "", t["callee"]):
+                    if c and (ALLOCATING.search(c) or ALLOCATING.search(re.sub(r"::<[^<>]*(<[^<>]*>[^<>]*)*>", "", c))):
+                        out.append(c)
+                        break
+    return sorted(set(out))
 
 
 def run(ck):
@@ -114,12 +140,19 @@ def run(ck):
         # "fixed-capacity buffer" paths the property speaks of. Any other std-only body that allocates - a blocking
         # entry point, a convenience wrapper - allocates while parsing/dispatching/formatting into a fixed buffer.
         stray = []
+        growable = set()
         for root in sorted(std_only):
             b = std.body(root)
             # impls *for* a growable type (`impl Write for Vec<u8>`, `impl Response for String`): the caller chose the heap
-            is_growable_writer = b is not None and ((b.get("self_ty") or "").startswith("alloc::") or (b.get("self_ty") or "").startswith("std::"))
-            if not is_growable_writer:
-                stray.append(root)
+            if b is not None and re.match(r"(alloc|std)::(vec::Vec|string::String|collections::vec_deque::VecDeque)\b", b.get("self_ty") or ""):
+                growable.add(root)
+        for root in sorted(std_only):
+            if root in growable or any(g in root for g in growable):
+                continue        # ... including helper items nested inside such a method
+            # using std (an io::Error, a TcpStream) is not allocating: only calls that obtain heap memory count
+            calls = allocating_calls(std, root)
+            if calls:
+                stray.append((root, calls[:2]))
         ck.judge(not stray, "C13-S", "std:allocating-bodies", "under feature std only impls for growable types (Vec<u8>, String) touch the heap: %s" % sorted(std_only),
                  "under feature std, bodies other than the writer into a growable buffer allocate: %s (heap allocation on a path that serves fixed-capacity buffers too)" % stray[:4])
         ck.judge(not shared_bad, "C13-S", "std:confinement", "with feature std: %d call sites; allocation only in std-only bodies %s" % (n, sorted(std_only)),
